@@ -20,10 +20,11 @@ def mc(chk, invariants=(), properties=(), depth=2):
 
 
 def gen_tt(chk, stage, init, next_, maxobj, quick_sample, strat=None, opts_fn=None, judge=None, thorough_seeds=2,
-           per_stratum=3, key_extra=None):
+           per_stratum=3, key_extra=None, thorough_sample=40000):
     quick = chk.tier == 'quick'
     groups = stages.generate(chk, stage, init, next_, dict(C, MaxObj=maxobj, GenLevel=1 if quick else 2))
-    return stages.transition_tests(chk, stage, groups, sample=quick_sample if quick else None, per_stratum=per_stratum,
+    # thorough: everything generated, up to a cap that keeps memory and time bounded (stratified beyond it)
+    return stages.transition_tests(chk, stage, groups, sample=quick_sample if quick else thorough_sample, per_stratum=per_stratum,
                                    strat=strat, opts_fn=opts_fn, judge=judge,
                                    seeds_per_group=1 if quick else thorough_seeds, key_extra=key_extra)
 
